@@ -845,6 +845,8 @@ class OpOperands(Sequence[SSAValue]):
         operand_uses = self._op._operand_uses  # pyright: ignore[reportPrivateUsage]
         operands[idx].remove_use(operand_uses[idx])
         operand.add_use(operand_uses[idx])
+        if idx < 0:
+            idx += len(operands)
         new_operands = SSAValues((*operands[:idx], operand, *operands[idx + 1 :]))
         self._op._operands = new_operands  # pyright: ignore[reportPrivateUsage]
 
@@ -1162,6 +1164,8 @@ class Operation(_IRNode):
         else:
             region_idx = region
             region = self.regions[region_idx]
+            if region_idx < 0:
+                region_idx += len(self.regions)
         region.parent = None
         self.regions = self.regions[:region_idx] + self.regions[region_idx + 1 :]
         return region
@@ -2112,6 +2116,8 @@ class OpSuccessors(Sequence[Block]):
         successor_uses = self._op._successor_uses  # pyright: ignore[reportPrivateUsage]
         successors[idx].remove_use(successor_uses[idx])
         successor.add_use(successor_uses[idx])
+        if idx < 0:
+            idx += len(successors)
         new_successors = (*successors[:idx], successor, *successors[idx + 1 :])
         self._op._successors = new_successors  # pyright: ignore[reportPrivateUsage]
 
